@@ -1144,6 +1144,8 @@ fn cmd_check(scenarios: &[Scenario], prop: &str, tier: &str) -> i32 {
     let mut seen = BTreeSet::new();
     for f in std::mem::take(&mut m.found) {
         if !seen.insert(f.oracle.clone()) {
+            // another worker already reported this oracle: drop the duplicate replay file
+            let _ = std::fs::remove_file(&f.replay);
             continue;
         }
         match confirm_replay(&f.replay, &f.oracle) {
